@@ -237,6 +237,43 @@ def memvec_case(cx, rng):
     return desc, bad
 
 
+def shiftcount_part(run, quick):
+    """shifts and rotations whose count has another width than the shifted value (cl, Rs[0:8] ...): constant folding,
+    simplify and eval keep the width of the shifted value, whatever the count's value and width"""
+    cx = c01.Ctx()
+    E = cx.E
+    rng = random.Random(run.seed * 389 + 12)
+    for _ in range(400 if quick else 6000):
+        w = rng.choice([8, 16, 32, 64, 12, 1])
+        cw = rng.choice([8, 8, 16, 32, 5, w])
+        sym = rng.choice(["<<", ">>", "//", ">>>", "<<<"])
+        cnt = rng.choice([0, 1, w - 1, w, w + 1, rng.randrange(0, 1 << min(cw, 9)), (1 << cw) - 1]) & ((1 << cw) - 1)
+        val = rng.getrandbits(w)
+        desc = {"operator": sym, "width": w, "count_width": cw, "count": cnt, "value": val}
+        run.count(("shiftcount", json.dumps(desc, sort_keys=True)), nontrivial=cw != w and cnt >= w)
+        a, c = E.reg("sv%d" % w, w), E.reg("sc%d" % cw, cw)
+        env = cx.mapper()
+        env[a] = E.cst(val, w)
+        env[c] = E.cst(cnt, cw)
+        stages = [("constants", lambda: E.oper(sym, E.cst(val, w), E.cst(cnt, cw))),
+                  ("constants-simplify", lambda: E.oper(sym, E.cst(val, w), E.cst(cnt, cw)).simplify()),
+                  ("symbolic", lambda: E.oper(sym, a, c)),
+                  ("symbolic-count-constant", lambda: E.oper(sym, a, E.cst(cnt, cw)).simplify()),
+                  ("eval-concrete", lambda: env(E.oper(sym, a, c))),
+                  ("eval-concrete-simplify", lambda: env(E.oper(sym, a, c)).simplify()),
+                  ("eval-sliced-count", lambda: env(E.oper(sym, a, E.reg("wide", 32)[0:cw])) if cw <= 32 else None)]
+        if sym in ("<<", ">>") :
+            stages.append(("python-operator", lambda: (E.cst(val, w) << E.cst(cnt, cw)) if sym == "<<" else (E.cst(val, w) >> E.cst(cnt, cw))))
+        for name, f in stages:
+            try:
+                r = f()
+            except Exception:
+                continue          # raising is C01's subject
+            if r is not None and r.size != w:
+                run.violation("width|shift-count|%s|%s" % (sym, name), "%s of a %d-bit value by a %d-bit count (%d) has width %d: %s" % (name, w, cw, cnt, r.size, r), desc)
+                break
+
+
 def memvec_part(run, quick):
     cx = c01.Ctx()
     rng = random.Random(run.seed * 977 + 12)
@@ -318,6 +355,7 @@ def check(run):
             run.violation(o[0], "corpus case %s: %s" % (f.split("/")[-1], o[1][:120]), c)
     comp_part(run, quick)
     memvec_part(run, quick)
+    shiftcount_part(run, quick)
     for r in results:
         run.cov["evaluations"] += r["n"]
         run._distinct.update(("%d-%d" % (id(r), j)).encode() for j in range(r["distinct"]))
